@@ -3,6 +3,32 @@ TRUST = ("trusted: CPython ast; the checker's own engines; for table rules the i
          "against the real loaders at development time). Known findings are listed in KNOWN_FINDINGS.txt. ")
 
 META = {
+    "C07": {
+        "engine": "sa: dataflow, guard sets, guard engine, column extraction",
+        "technique": "def-use + path-predicate analysis of the reader and the residue-grouping loop; column table "
+                     "extraction cross-checked between sibling record classes and the wwPDB format",
+        "text": "decides the structural necessary conditions of 'every coordinate record is ingested': the read loop "
+                "exits only on the raw readline() EOF value; ATOM/HETATM can never enter the suppression list and every "
+                "handler re-raises or recovers them; all dispatched record classes are registered; ATOM and HETATM read "
+                "identical wwPDB columns with mandatory fields parsed strictly; read_atom rebuilds into those columns; "
+                "residue key = (chain,resSeq,iCode); first-wins in all five constructors; every flush is guarded (incl. "
+                "the previous-atom invariant); first model only; water drop gated by the flag and column-based. Files "
+                "too short to hold coordinates are not decided.",
+        "note": TRUST + "The wwPDB ATOM/HETATM column table (15 rows) is frozen in the checker.",
+    },
+    "C08": {
+        "engine": "sa: E3b string-layout abstract interpretation",
+        "technique": "abstract interpretation of the line formatter over declared field domains (width intervals, "
+                     "alignment, truncation), all paths; slice-chain analysis of the re-spacing; token-order extraction "
+                     "of the reader",
+        "text": "for every field of the PQR line the maximal formatted width over the property's declared domain is "
+                "compared with the width each slice keeps (silent truncation), the fixed total width is proved on all "
+                "paths, the four --whitespace insertions are located on field boundaries, every adjacent pair of "
+                "non-empty fields is checked for a guaranteed blank, and the reader's token order (with its two optional "
+                "tokens) is compared with the writer's field order; precision of the format specs. Values are never "
+                "formatted by repository code; number widths come from Python's format() on domain extremes.",
+        "note": TRUST + "Declared domains are those of the property's quantifier.",
+    },
     "C01": {
         "engine": "sa: dataflow + guard engine + table model",
         "technique": "def-use/guard analysis of the assignment path + exhaustive state-name decision tables vs PATCHES.xml",
